@@ -2,7 +2,9 @@
 # Re-run every kept seeded change against the current checks (each on a scratch worktree of /repo); one summary line each.
 cd "$(dirname "$0")/.." || exit 2
 rc=0
+lane=${2:-0}; nlanes=${3:-1}; i=0      # optional: tools/seeded_all.sh <budget> <lane> <nlanes> runs every nlanes-th change
 for d in seeded/*/; do
+  i=$((i+1)); [ $((i % nlanes)) -eq "$lane" ] || continue
   id=$(basename "$d")
   out=$(timeout 1800 /venv/bin/python tools/seeded.py "seeded/$id" --scratch --budget "${1:-8}" 2>/dev/null) || rc=1
   printf "%s" "$out" | /venv/bin/python -c "
